@@ -141,6 +141,13 @@ Definition add_thousand_separators (s : text) : text :=
                 end in
   if is_negative then "-" :: result else result.
 
+(* the tail of format_float_significant: "remove trailing zeros after decimal point" *)
+Definition trim_fraction (formatted : text) : text :=
+  if contains "." formatted then
+    let trimmed := trim_end "0" formatted in
+    if ends_with "." trimmed then trim_end "." trimmed else trimmed
+  else formatted.
+
 Section Display.
   (* ----- library oracles ----- *)
   Variable log10 : num -> num.                 (* f64::log10 *)
@@ -186,10 +193,7 @@ Section Display.
   Definition format_float_significant (value : num) : outcome text :=
     do decimal_places <- decimal_places_of value;
     let formatted := fmt_prec value decimal_places in
-    if contains "." formatted then
-      let trimmed := trim_end "0" formatted in
-      if ends_with "." trimmed then Ok (trim_end "." trimmed) else Ok trimmed
-    else Ok formatted.
+    Ok (trim_fraction formatted).
 
   (* format_standard(value) *)
   Definition format_standard (value : num) : outcome text :=
